@@ -50,6 +50,20 @@ def _seed_corpus(root, cdir):
     put(11, "calls", bytes(range(64)))
 
 
+def _dict_file(work):
+    """libFuzzer dictionary made of the library's own string literals (lib/literals.py)."""
+    try:
+        import literals
+        path = os.path.join(work, "literals.dict")
+        with open(path, "w") as fh:
+            for _, b in literals.extract(os.environ.get("VERIF_REPO") or "/repo"):
+                if len(b) <= 32:
+                    fh.write('"' + "".join("\\x%02x" % c for c in b) + '"\n')
+        return ["-dict=" + path]
+    except Exception:
+        return []
+
+
 def fuzz(root, outdir, seed, tier):
     res = {"failures": [], "inconclusive": [], "coverage": {}}
     if os.environ.get("VERIF_REPO"):
@@ -72,7 +86,7 @@ def fuzz(root, outdir, seed, tier):
     p = subprocess.run(["cargo", "+nightly", "fuzz", "run", "all", cdir, "--",
                         f"-artifact_prefix={adir}/", f"-max_total_time={SECONDS}", f"-seed={seed}",
                         "-timeout=10", "-max_len=2048", f"-fork={jobs}", "-ignore_crashes=1",
-                        "-ignore_timeouts=1", "-ignore_ooms=1"],
+                        "-ignore_timeouts=1", "-ignore_ooms=1", "-use_value_profile=1"] + _dict_file(work),
                        cwd=hdir, env=_env(), stdout=subprocess.PIPE, stderr=subprocess.STDOUT, text=True,
                        timeout=SECONDS + 600)
     out = p.stdout
@@ -172,7 +186,7 @@ def diff_stage(sel, pid):
         p = subprocess.run(["cargo", "+nightly", "fuzz", "run", "diff", cdir, "--",
                             f"-artifact_prefix={adir}/", f"-max_total_time={DIFF_SECONDS}", f"-seed={seed}",
                             "-timeout=20", "-max_len=1500", "-len_control=0", f"-fork={jobs}", "-ignore_crashes=1",
-                            "-ignore_timeouts=1", "-ignore_ooms=1"],
+                            "-ignore_timeouts=1", "-ignore_ooms=1", "-use_value_profile=1"] + _dict_file(work),
                            cwd=hdir, env=env, stdout=subprocess.PIPE, stderr=subprocess.STDOUT, text=True,
                            timeout=DIFF_SECONDS + 600)
         stats = re.findall(r"#(\d+): cov: (\d+) ft: (\d+) corp: (\d+)", p.stdout)
